@@ -300,6 +300,15 @@ func c07Run(c *run.Ctx, idx uint64, exact bool) {
 		// the direct pipeline is never wrapped: it is the reference the
 		// logger-wrapped pipelines are compared with
 		var dA ivg.Destination = &zA
+		if idx%2 == 1 {
+			// objects are reused: whatever an earlier graphic left behind,
+			// Reset starts the sequence over
+			zA.Reset(ivg.ViewBox{MinX: 1, MinY: 2, MaxX: 3, MaxY: 4}, pal)
+			zA.SetCSel(5)
+			zA.SetNSel(7)
+			zA.SetNReg(0, true, 0.5)
+			zA.SetLOD(3, 4)
+		}
 		dA.Reset(vb, pal)
 		c07Drive(dA, acts, func(i int, err error) { snaps[i] = snap{dA.CSel(), dA.NSel(), err} })
 	})
@@ -313,7 +322,21 @@ func c07Run(c *run.Ctx, idx uint64, exact bool) {
 	violated := false
 	ok = c.Guard("encoder pipeline", func() interface{} { return desc(nil) }, func() {
 		dB := wrap(&e)
+		if idx%2 == 1 {
+			c.Count("reused_objects", 1)
+			e.SetCSel(5)
+			e.SetNSel(7)
+			e.SetNReg(0, true, 0.5)
+			e.SetLOD(3, 4)
+			if idx%4 == 3 {
+				e.StartPath(0, 1, 1) // left inside a path
+			}
+		}
 		dB.Reset(vb, pal)
+		if dB.CSel()&63 != 0 || dB.NSel()&63 != 0 {
+			violated = true
+			c.Violate("selectors-not-zero-after-reset", desc(map[string]interface{}{"encoder": []uint8{dB.CSel(), dB.NSel()}}))
+		}
 		e.HighResolutionCoordinates = !exact
 		c07Drive(dB, acts, func(i int, err error) {
 			if violated {
